@@ -60,6 +60,12 @@ class CollectSuite(Suite):
                 pep = gens.norm(rng.choice(["1/1024", "1/512", "1/100", "1/2"])) if rng.random() < 0.7 else gens.grid_pep(rng)
                 pil.append([e, pep, ps])
             mode = rng.choice(["discard", "discard", "razor", "razor", "with_shared"])
+            if mode == "razor" and rng.random() < 0.4:
+                # extreme PEPs: differences far below the spacing of doubles near the peptide counts, and the end points 0 and 1
+                ext = [str(Fraction(x)) for x in (1e-30, 1e-20, 1e-17, 0.0, 1.0)]
+                for row in pil:
+                    if rng.random() < 0.7:
+                        row[1] = rng.choice(ext)
             yield {"groups": groups, "pil": pil, "mode": mode,
                    "counts_set": rng.random() < 0.8, "suppress": rng.random() < 0.5,
                    "valid_index": rng.random() < 0.95}
@@ -152,6 +158,20 @@ def property_violation(case, out):
                 return "razor-did-not-reduce-to-one-protein"
             if case["mode"] != "with_shared" and not all(where.get(p) == gi for p in ps):
                 return "peptide-supports-a-group-not-holding-all-its-proteins"
+    if case["mode"] == "razor" and case["counts_set"]:
+        # the razor protein has the most observed peptides; among those with as many, the lowest best PEP
+        cnt, best = {}, {}
+        for e, (sc, ps) in pil.items():
+            for p in set(ps):
+                cnt[p] = cnt.get(p, 0) + 1
+                best[p] = min(best.get(p, Fraction(2)), Fraction(sc))
+        for gi, inf in enumerate(out["ok"]):
+            for sc, e, ps in inf:
+                if len(ps) == 1 and e in pil:
+                    star = ps[0]
+                    for q in pil[e][1]:
+                        if (cnt.get(q, 0), -best.get(q, Fraction(1))) > (cnt.get(star, 0), -best.get(star, Fraction(1))):
+                            return "razor-protein-is-not-the-most-observed"
     if case["mode"] != "with_shared":
         seen = {}
         for gi, inf in enumerate(out["ok"]):
